@@ -21,11 +21,13 @@
  *   EMIT <round> <fac>,...  one message per (facility, severity); fatal ones in a grandchild
  *   EMITLONG <round> <fac>,... <len>   padded messages at info and error
  *   REOPEN                  log_reopen()
+ *   FSIZE <bytes>|unlimited setrlimit(RLIMIT_FSIZE) (SIGXFSZ ignored): writes to log files fail for a while
  */
 #include "src/common.h"
 #include <fcntl.h>
 #include <signal.h>
 #include <sys/wait.h>
+#include <sys/resource.h>
 
 struct event_base *ev_base;
 struct evdns_base *ev_dns;
@@ -484,6 +486,14 @@ static int run_command(char *line)
         do_emit(argv[1], argv[2]);
     } else if (!strcmp(argv[0], "EMITLONG") && argc >= 4) {
         do_emit_long(argv[1], argv[2], (unsigned int)strtoul(argv[3], NULL, 10));
+    } else if (!strcmp(argv[0], "FSIZE") && argc >= 2) {
+        /* FSIZE <bytes>|unlimited: the largest file this process may write (RLIMIT_FSIZE): with 0 every write to a log FILE
+         * fails with EFBIG until the limit is lifted again - a disk that is full for a while */
+        struct rlimit rl;
+        signal(SIGXFSZ, SIG_IGN);
+        getrlimit(RLIMIT_FSIZE, &rl);
+        rl.rlim_cur = !strcmp(argv[1], "unlimited") ? rl.rlim_max : (rlim_t)strtoul(argv[1], NULL, 10);
+        printf("FSIZE rc=%d\n", setrlimit(RLIMIT_FSIZE, &rl));
     } else if (!strcmp(argv[0], "REOPEN")) {
         log_reopen();
     } else if (!strcmp(argv[0], "PARSE") && argc >= 3) {
